@@ -454,6 +454,9 @@ func NewWorldIn(dir, converterBin string, populate bool) (*World, error) {
 			if err := os.Symlink(converterBin, filepath.Join(w.ConvDir, "convflaky")); err != nil {
 				return nil, err
 			}
+			if err := os.Symlink(converterBin, filepath.Join(w.ConvDir, "convflaky2")); err != nil {
+				return nil, err
+			}
 		}
 	}
 	if err := w.start(); err != nil {
@@ -785,6 +788,18 @@ func ViewDigest(v *manager.View, withTags bool) (string, error) {
 	}); err != nil {
 		return "", err
 	}
+	// a query that was parsed long before it is used (a stored query, a page of results asked for later): its time
+	// filter is an absolute time between the captures of the menu, and what it means must not depend on when the view
+	// took its snapshot or on when the question is asked
+	var early []string
+	if _, _, _, err := v.SearchStreams(context.Background(), storedTimeQuery(), func(sc manager.StreamContext) error {
+		early = append(early, fmt.Sprint(sc.Stream().ID()))
+		return nil
+	}); err != nil {
+		return "", err
+	}
+	found = append(found, "first packet before "+storedTimeText+":")
+	found = append(found, early...)
 	sc, err := v.Stream(0)
 	if err != nil {
 		return "", err
@@ -838,3 +853,23 @@ func ViewDigest(v *manager.View, withTags bool) (string, error) {
 }
 
 var _ = mc.Fatal
+
+
+const storedTimeText = "2020-01-01 1200+2500ms"
+
+var (
+	storedOnce sync.Once
+	storedQ    *query.Query
+)
+
+// storedTimeQuery is parsed once per process, at the first use; every later use is seconds to minutes after that.
+func storedTimeQuery() *query.Query {
+	storedOnce.Do(func() {
+		q, err := query.Parse("ftime:\":" + storedTimeText + "\" sort:id")
+		if err != nil {
+			mc.Fatal("stored query: %v", err)
+		}
+		storedQ = q
+	})
+	return storedQ
+}
